@@ -17,7 +17,7 @@ class P(DockProp):
             "operation over two different selections) over 1-5 containers, with exactly one fault per case (or none): listing fails; the open of one container fails (selected or "
             "not; in the left or the right operand); a stream is cut inside a frame body, carries a daemon error frame, a malformed timestamp, a frame without space, or its reader "
             "fails -- at the first frame, in the middle, after the last frame; a stream cut inside a frame header (a clean end by C03, expected to succeed); each case under "
-            "2-3 completion orders of the concurrent opens. Demanded on every observed run: readers closed = readers opened for every container; an error whenever the fault lies "
+            "2-3 completion orders of the concurrent opens; one case in eight puts an invalid stage (bad template / pattern / ip() / path / regexp that the parser accepts) into a log query, a range aggregation or either side of a binary operation. Demanded on every observed run: readers closed = readers opened for every container; an error whenever the fault lies "
             "before every record the query needs (always for listing/open faults and for unlimited log queries); a non-error answer equals the answer over the intended fault-free "
             "streams; only selected containers are opened; log queries also equal the exact read-by-read model, for every completion order.")
 
@@ -27,7 +27,49 @@ class P(DockProp):
         m = mgen.MGen(rng)
         return [self.one(rng, g, m, i) for i in range(n)]
 
+    BADSTAGES = ['| line_format "{{ .n"', '| label_format x="{{ nosuchfunc .n }}"', '| pattern "<a><b>"', '|= ip("not-an-ip")', '| json x="a["', '| regexp "(?P<a>x)(?P<a>y)"']
+
+    def badstage(self, rng, g, m, i):
+        """a stage the parser accepts and pipeline construction rejects ("an invalid stage"): an error, and whatever was opened is closed"""
+        nc = rng.randint(1, 4)
+        names = ["web", "api", "db", "cron", "cache"]
+        ctrs = [Ctr(rng, k, name=names[k], labels={"side": rng.choice(["l", "r"]), "tier": rng.choice(["a", "b"])}) for k in range(nc)]
+        start, end = T0, T0 + 4 * S
+        for c in ctrs:
+            c.set_records(rng, rng.randint(1, 4), T0, 3 * S)
+        bad = {"k": "raw", "text": rng.choice(self.BADSTAGES), "coq": "EInvalid"}        # Run/Dock.v: a stage that pipeline construction rejects
+        sel = [self.eqv("tier", rng.choice(["a", "b"]))] if rng.random() < 0.5 else [dgen.matcher(rng, ctrs, "container_name")]
+        shape = rng.choice(["log", "range", "binright", "binleft"])
+        sels = [sel]
+        if shape == "log":
+            q = g.query_text(sel, [bad], "spaced")
+            qcoq = "DQLog (%s) 0" % g.query_coq(sel, [bad])
+            step, st = 0, start
+        else:
+            e = m.mrange("count_over_time", sel, [bad], S)
+            if shape != "range":
+                s2 = [self.eqv("side", rng.choice(["l", "r"]))]
+                ok = m.mvec("sum", m.mrange("count_over_time", s2, [m.g.st_dropkeep("drop", ["msg"], [])], S), None, mgen.grouping(["tier"]))
+                badside = m.mvec("sum", e, None, mgen.grouping(["tier"]))
+                e = m.mbin("+", ok, badside) if shape == "binright" else m.mbin("+", badside, ok)
+                sels = [sel, s2]
+            q = m.text(e)
+            qcoq = "DQMetric (%s)" % e["coq"]
+            step, st = rng.choice([(0, end), (S, start)])
+        ids = []
+        for sl in sels:
+            for c in dgen.selected(ctrs, sl):
+                if c.id not in ids:
+                    ids.append(c.id)
+        evals = [{"q": b64e(q), "qcoq": qcoq, "limit": 0, "start": st, "end": end, "step": step, "release": rel,
+                  "exp_selected": ids, "exp_opts": {}, "must_err": True, "must_ok": False} for rel in (list(range(nc)), list(reversed(range(nc))))]
+        return {"kind": "badstage-" + shape, "ctrs": [c.json() for c in ctrs], "ctrs_coq": clist(c.coq() for c in ctrs), "ctrs_intended_coq": clist(c.coq(False) for c in ctrs),
+                "list_fail": False, "oracle": oracles_coq(), "evals": evals, "same": [], "faults": ["badstage"],
+                "summary": ["%s recs=%d labels=%s" % (c.id, len(c.recs), c.labels) for c in ctrs], "note": "invalid stage %s" % bad["text"]}
+
     def one(self, rng, g, m, i):
+        if i % 8 == 7:
+            return self.badstage(rng, g, m, i)
         nc = rng.randint(1, 5)
         names = ["web", "api", "db", "cron", "cache"]
         ctrs = [Ctr(rng, k, name=names[k], labels={"side": rng.choice(["l", "r"]), "tier": rng.choice(["a", "b"])}) for k in range(nc)]
